@@ -112,16 +112,12 @@ func vxH09Rpc(k int, ops int, ntags int, dotu bool, seg bool, gopeer bool) {
 		peer = vxNewPeer(nc, dotu, onReq)
 	}
 
-	done := make(chan int, k)
 	for i := 0; i < k; i++ {
-		c := callers[i]
-		go func() {
-			c.call(clnt)
-			done <- c.id
-		}()
+		go callers[i].call(clnt)
 	}
-	vxAwaitCallers(done, k)
-	vxQuiesce()
+	if !vxAwaitCallers(callers[:k]) {
+		return
+	}
 
 	vxAssert(!peer.badWire, "client-writes-whole-frames")
 	vxAssert(!peer.dupTag, "outstanding-tags-pairwise-distinct")
